@@ -302,7 +302,29 @@ struct EnumSummary {
 }
 
 impl EnumSummary {
+    #[inline(always)]
     fn add(&mut self, input: i128, r: Option<Res>, cap: usize, base_range: (i128, i128)) {
+        // hot path: a rejection of the same class as the previous one
+        if let Some(Res { ok: false, val, .. }) = &r {
+            if let Some((k, e)) = self.last.as_mut() {
+                if k.0 == val.wrapping_sub(input) && k.1 == region(input, base_range) {
+                    self.n += 1;
+                    self.rej += 1;
+                    e.0 += 1;
+                    if input < e.1 {
+                        e.1 = input;
+                    }
+                    if input > e.2 {
+                        e.2 = input;
+                    }
+                    return;
+                }
+            }
+        }
+        self.add_slow(input, r, cap, base_range)
+    }
+    #[inline(never)]
+    fn add_slow(&mut self, input: i128, r: Option<Res>, cap: usize, base_range: (i128, i128)) {
         let Some(r) = r else {
             self.unsupported += 1;
             return;
@@ -329,14 +351,6 @@ impl EnumSummary {
         } else {
             self.rej += 1;
             let key = (r.val.wrapping_sub(input), region(input, base_range));
-            if let Some((k, e)) = self.last.as_mut() {
-                if *k == key {
-                    e.0 += 1;
-                    e.1 = e.1.min(input);
-                    e.2 = e.2.max(input);
-                    return;
-                }
-            }
             self.flush();
             self.last = Some((key, (1, input, input)));
         }
